@@ -25,6 +25,9 @@ class Ctx:
         self._cfgs = {}
         self._callgraph = None
         self._res_stats = None
+        from . import cfg as _cfg
+        _cfg.PURE_PREDICATES.clear()
+        _cfg.PURE_PREDICATES.update(_cfg.pure_predicates(prog))
 
     def run(self, name):
         if name in self._results:
